@@ -117,8 +117,15 @@ func (s *Store) Await(timeout time.Duration) error {
 			return nil
 		}
 
+		// return if the deadline has been reached (a non-positive duration
+		// would make the future wait without a timeout)
+		rest := deadline.Sub(time.Now())
+		if timeout > 0 && rest <= 0 {
+			return ErrTimeout
+		}
+
 		// wait for next future to complete
-		err := next.Wait(deadline.Sub(time.Now()))
+		err := next.Wait(rest)
 		if err != nil {
 			return err
 		}
